@@ -602,16 +602,25 @@ def mode_caller_faults(ctx, tid0):
 
 # --------------------------------------------------------------------------- mode R: state graph replay
 def mode_graph_replay(ctx, tid0):
-    """Replay TLC behaviours of LockFile (2 actors) on the real _GitFile: cover every transition."""
+    traces, meta, tid = [], {}, tid0
+    for (actors, maxw, budget) in (("{0, 1}", 2, ctx.pick(400, 100000)), ("{0, 1, 2}", 1, ctx.pick(150, 8000))):
+        tr, me, tid = graph_replay(ctx, tid, actors, maxw, budget)
+        traces += tr
+        meta.update(me)
+    return traces, meta, tid
+
+
+def graph_replay(ctx, tid0, actors_set, maxw, budget):
+    """Replay TLC behaviours of LockFile on the real _GitFile: cover every transition (budget permitting)."""
     import re
     d = ctx.tmpdir("g")
     cfg = os.path.join(d, "gen.cfg")
-    tlc.write_cfg(cfg, spec="Spec", constants={"Actors": "{0, 1}", "MaxWrites": 2, "MaxFaults": 1,
+    tlc.write_cfg(cfg, spec="Spec", constants={"Actors": actors_set, "MaxWrites": maxw, "MaxFaults": 1,
                                               "CleanupAfterReplace": "FALSE", "CloseOnError": "FALSE"},
                   invariants=["Mutex", "AtomicReplace", "FailedKeepsOld", "ReleasedAtExit"], view="View")
     dot = os.path.join(d, "g.dot")
     res = tlc.run("LockFile.tla", cfg, workers=4, dump_dot=dot, timeout=600)
-    ctx.add_tlc("LockFile[gen 2 actors]", res)
+    ctx.add_tlc(f"LockFile[gen actors={actors_set} MaxWrites={maxw}]", res)
     g = tlc.load_dot(dot)
     # BFS tree from the initial state for shortest prefixes
     init = g.init[0]
@@ -634,7 +643,6 @@ def mode_graph_replay(ctx, tid0):
     total_edges = len(uncovered)
     paths = []
     rng = ctx.rng
-    budget = ctx.pick(400, 100000)
     all_edges = sorted(uncovered)
     rng.shuffle(all_edges)
     for e in all_edges:
@@ -665,7 +673,7 @@ def mode_graph_replay(ctx, tid0):
             m = act_re.match(lab.replace(" ", ""))
             steps.append((m.group(1), int(m.group(2)), int(m.group(3)) if m.group(3) else None, g.nodes[t]))
         plans, faults, prefix = {}, [], []
-        ncall = {0: 0, 1: 0}
+        ncall = {0: 0, 1: 0, 2: 0}
         for (act, a, k, st) in steps:
             pl = plans.setdefault(a, {"chunks": "", "end": None, "fsync": False, "nwrite": 0})
             if act == "Return":
@@ -732,8 +740,8 @@ def mode_graph_replay(ctx, tid0):
                 print("  model:", [(act, a, st["lck"], st["tgt"]) for (act, a, st) in model], outs_model, plans)
         ctx.nontrivial(("graph", tuple(l for (_, l, _) in path)))
     ctx.sample({"kind": "graph-replay", "behaviour": [l for (_, l, _) in paths[0]], "trace": traces[0]})
-    ctx.cov["graph_replay"] = {"states": len(g.nodes), "transitions": total_edges, "behaviours": len(paths),
-                               "transitions_covered": covered, "mismatches": mismatches}
+    ctx.cov.setdefault("graph_replay", []).append({"actors": actors_set, "states": len(g.nodes), "transitions": total_edges, "behaviours": len(paths),
+                               "transitions_covered": covered, "mismatches": mismatches})
     return traces, meta, tid
 
 
